@@ -19,12 +19,16 @@ Import ListNotations.
 Local Open Scope Z_scope.
 
 Inductive obs :=
+| OAsync (qs : list Z)        (* dispatch_async_f begins; qs = candidates for the wakeup qos (it derives from dq_priority,
+                                 which the activation of an inactive queue changes under the caller's feet) *)
 | OCall (c : call)
 | ORet
 | OBegin
 | OEnd
 | OSee (v : Z)
 | OCas (old new : Z)
+| OCasSide (old new sd : Z)   (* a side-counter transfer, with the value dq_side_suspend_cnt had before it (known from the
+                                 chain of the round's transfers: the counter only changes under the side lock) *)
 | OXor (old : Z).
 
 (* an injective key, for duplicate elimination *)
@@ -42,7 +46,7 @@ Definition pc_key (p : pc) : list Z :=
   | PR_rmw => [24] | PR_slock => [25] | PR_srmw => [26] | PR_sside => [27] | PR_sunlock => [28] | PR_sretry => [29]
   | PR_role => [30]
   | PR_bctail q => [31; q] | PR_bcsusp q => [32; q] | PR_bchead q => [33; q] | PR_cbc q tg => [34; q; b2 tg]
-  | PR_bcxor q => [35; q] | PR_probe q => [36; q] | PR_wake q => [37; q]
+  | PR_bcxor q => [35; q] | PA_oprobe q => [36; q] | PA_owake q => [37; q]
   | PC_rmw => [38] | PCrash tag => [39; tag]
   end.
 Fixpoint zl_eqb (a b : list Z) : bool :=
@@ -60,7 +64,7 @@ Fixpoint pc_add (l : list pc) (acc : list pc) : list pc :=
 Definition reads_word (p : pc) : bool :=
   match p with
   | PA_wake _ _ | PW_lock _ | PW_chk _ | PW_unlock _ | PW_xor _ | PW_fin _ | PS_rmw | PS_srmw | PR_rmw | PR_srmw | PR_role
-  | PR_bcsusp _ | PR_cbc _ _ | PR_bcxor _ | PR_wake _ | PC_rmw => true
+  | PR_bcsusp _ | PR_cbc _ _ | PR_bcxor _ | PA_owake _ | PC_rmw => true
   | _ => false
   end.
 (* program points that are only passed with a mark *)
@@ -110,12 +114,13 @@ Definition closure (rb t : Z) (seen : option Z) (ps : list pc) : list pc :=
   | Some v => close_nonreading rb t 12 (pc_add (flat_map (quiet_reading rb t v) a) a)
   end.
 
-Definition commit_from (rb t old new : Z) (ps : list pc) : list pc :=
+Definition commit_from_envs (es : list (list entry * Z)) (rb t old new : Z) (ps : list pc) : list pc :=
   pc_add (flat_map (fun p => if reads_word p
                              then flat_map (fun e => match step1 rb t old p e with
                                                      | Some (w', p') => if w' =? new then [p'] else []
-                                                     | None => [] end) envs
+                                                     | None => [] end) es
                              else []) ps) [].
+Definition commit_from := commit_from_envs envs.
 
 Definition is_xor_pc (p : pc) : bool := match p with PW_xor _ | PR_bcxor _ => true | _ => false end.
 Definition is_run_pc (p : pc) : bool := match p with PW_run _ _ _ => true | _ => false end.
@@ -133,6 +138,16 @@ Record rstate := { cand : list pc; seen : option Z }.
 Definition rstep (rb t : Z) (r : rstate) (o : obs) : option rstate :=
   let cl := closure rb t (seen r) (cand r) in
   match o with
+  | OAsync qs =>
+      if pc_mem Idle cl
+      then (* whether a push that finds the list non-empty also issues the need_override wakeup depends on an
+              unsynchronised read: both continuations are candidates *)
+           let cs := flat_map (fun q => [CAsync q true; CAsync q false]) qs in
+           match flat_map (fun c' => match begin (synth 0 [] 0 Idle) t c' with Some s' => [pcs s' t] | None => [] end) cs with
+           | [] => None
+           | ps => Some {| cand := ps; seen := None |}
+           end
+      else None
   | OCall c =>
       if pc_mem Idle cl
       then match begin (synth 0 [] 0 Idle) t c with
@@ -146,6 +161,11 @@ Definition rstep (rb t : Z) (r : rstate) (o : obs) : option rstate :=
   | OSee v => Some {| cand := with_worker t cl; seen := Some v |}
   | OCas old new =>
       match commit_from rb t old new (with_worker t cl) with
+      | [] => None
+      | ps => Some {| cand := ps; seen := None |}
+      end
+  | OCasSide old new sd =>
+      match commit_from_envs (map (fun l => (l, sd)) lst_envs) rb t old new (with_worker t cl) with
       | [] => None
       | ps => Some {| cand := ps; seen := None |}
       end
